@@ -529,7 +529,7 @@ PROPS["C02"] = {
                  "WhatIs.C02.private_not_shown", "WhatIs.DerKeys.pub_fields", "WhatIs.DerKeys.dsa_fields", "WhatIs.DerKeys.strict_keys",
                  "WhatIs.DerKeys.pkcs1pub_from_der", "WhatIs.DerKeys.dsa_from_der",
                  "WhatIs.C02.ssh_mpint_readback", "WhatIs.C02.ssh_rsa_blob_readback", "WhatIs.C02.ssh_rsa_blob_described",
-                 "WhatIs.C02.ssh_ed25519_blob_readback", "WhatIs.C02.ssh_dsa_blob_described"],
+                 "WhatIs.C02.ssh_ed25519_blob_readback", "WhatIs.C02.ssh_dsa_blob_described", "WhatIs.C02.ssh_rsa_blob_trailing_refused"],
     "facts": {"keys.rsaSizeFromByteLength": False, "names.curveOidCount": 19, "der.strictKeys": True, "der.pkcs1ExponentKind": "big", "der.pkcs1PubFieldCount": 2, "der.pkcs1PrivFieldCount": 10, "der.dsaPrivFieldCount": 6},
     "nontrivial": nt_c02,
     "rule": "keys written by the harness's own encoders into PKCS#1 public/private, SPKI, PKCS#8, SEC1, traditional DSA (DER and PEM, "
